@@ -2,8 +2,12 @@
 From V.C19 Require Import Model Spec Proofs Run.
 
 Definition ex_tbl : ctable :=
-  [("Box", {| g_params := ["T"]; g_props := [("v", Some (DGen "T")); ("n", Some (DConc CInt)); ("u", None)] |});
-   ("Pair", {| g_params := ["K"; "V"]; g_props := [("k", Some (DGen "K")); ("w", Some (DGen "V"))] |})].
+  [("Box", {| g_params := ["T"]; g_props := [("v", Some (DGen "T")); ("n", Some (DConc CInt)); ("u", None)];
+              g_meths := [("chk_v", Some (DGen "T")); ("chk_n", Some (DConc CInt))]; g_ctor := None |});
+   ("Pair", {| g_params := ["K"; "V"]; g_props := [("k", Some (DGen "K")); ("w", Some (DGen "V"))];
+               g_meths := [("chk_w", Some (DGen "V"))]; g_ctor := None |});
+   ("PBox", {| g_params := ["T"]; g_props := [("v", Some (DGen "T"))]; g_meths := [("chk_v", Some (DGen "T"))];
+               g_ctor := Some ("v", Some (DGen "T")) |})].
 
 (* the hypothesis of the theorems is satisfiable by a table with one- and two-parameter classes *)
 Example ex_wf : wf_tbl ex_tbl = true.
@@ -39,7 +43,8 @@ Definition get_property_legacy (g : gclass) (m : list (string * cty)) (p : strin
   | None => (g, None)
   | Some (Some (DGen n)) =>
       ({| g_params := g_params g;
-          g_props := set_prop_type p (option_map DConc (lookup n m)) (g_props g) |}, Some (lookup n m))
+          g_props := set_prop_type p (option_map DConc (lookup n m)) (g_props g);
+          g_meths := g_meths g; g_ctor := g_ctor g |}, Some (lookup n m))
   | Some (Some (DConc c)) => (g, Some (Some c))
   | Some None => (g, Some None)
   end.
@@ -61,3 +66,20 @@ Example fixed_on_witness :
   accepts fixture_sub get_property st 1 "v" (VStr "s") = Some true /\
   accepts fixture_sub get_property st 1 "v" (VInt 5) = Some false /\ decls st = ex_tbl.
 Proof. vm_compute. repeat split; reflexivity. Qed.
+
+(* ---- calls and constructor calls inside a history (audit3 C19-1): T-typed parameter of a method and of a
+   promoted constructor parameter, interleaved with instantiations with other arguments, a raw `new Box()`
+   (no type arguments: every T-typed member unconstrained) and stores *)
+Definition ex_hist2 : list op :=
+  [ONew "Box" [CInt]; ONewC "PBox" [CString] (VStr "s"); OCall 0 "chk_v" (VInt 1); OCall 0 "chk_v" (VStr "x");
+   ONewC "PBox" [CInt] (VStr "s"); OCall 1 "chk_v" (VStr "y"); OCall 1 "chk_v" (VInt 2); ORead 1 "v";
+   ONewRaw "Box"; OWrite PDirect 2 "v" (VStr "s"); OCall 2 "chk_v" (VArr 1); OCall 0 "chk_v" (VStr "x");
+   OCall 0 "chk_n" (VStr "x"); OCall 0 "nope" (VInt 1); ONewC "PBox" [] (VInt 1)].
+Example ex_run2 : snd (run fixture_sub get_property (init ex_tbl) ex_hist2) =
+  [Created; Created; Accepted; Rejected; NewFailed; Accepted; Rejected; Got (VStr "s");
+   Created; Accepted; Accepted; Rejected; Rejected; BadInst; NewFailed].
+Proof. vm_compute. reflexivity. Qed.
+Example ex_hist2_null_free : null_free ex_hist2 = true.
+Proof. reflexivity. Qed.
+Example ex_hist2_spec : spec_run fixture_sub ex_tbl [] ex_hist2 = snd (run fixture_sub get_property (init ex_tbl) ex_hist2).
+Proof. vm_compute. reflexivity. Qed.
